@@ -1960,8 +1960,11 @@ class XNor(Any):
     """
 
     def __init__(self, *propositions, variable: typing.Union[puan.variable, str] = None):
+        at_least_one = AtLeast(value=1, propositions=propositions)
+        # the members as given (sorted, str ids as variables): both halves below hold them in negated form only
+        self.members = at_least_one.propositions
         super().__init__(
-            AtLeast(value=1, propositions=propositions).negate(), 
+            at_least_one.negate(), 
             AtMost(value=1, propositions=propositions).negate(), 
             variable=variable,
         )
@@ -2017,10 +2020,10 @@ class XNor(Any):
             'type': self.__class__.__name__,
             'propositions': list(
                 map(
-                    maz.compose(operator.methodcaller("to_json")),
-                    self.propositions[0].negate().propositions
+                    operator.methodcaller("to_json"),
+                    self.members
                 )
-            ) if len(self.propositions) > 0 else [],
+            ),
         }
         if not self.generated_id:
             d['id'] = self.id
